@@ -52,7 +52,7 @@ structure EInvA (s : State) (r : Ref) : Prop where
 
 /-- what a thread's program counter says about the entry it refers to -/
 def TInvA (s : State) (t : Tid) (th : Thread) : Prop :=
-  (∀ r ∈ th.todo, r < s.nHeap ∧ (th.op = .gc → (s.heap r).st ≠ .loading)) ∧
+  (∀ r ∈ th.todo, r < s.nHeap ∧ (th.op ≠ .close → (s.heap r).st ≠ .loading)) ∧
   match th.pc with
   | .getWaitClose r true | .loadBegin r =>
     r < s.nHeap ∧ (s.heap r).loader = some t ∧ (s.heap r).st = .loading ∧ (s.heap r).pending = none ∧
@@ -75,6 +75,7 @@ def TInvA (s : State) (t : Tid) (th : Thread) : Prop :=
     r < s.nHeap ∧ (s.heap r).closer = some t ∧ (s.heap r).st = .closing ∧ (s.heap r).value = some i
   | .trySetClosing r => r < s.nHeap ∧ (s.heap r).st ≠ .loading
   | .done res => res ≠ .panic
+  | .closeCollect => th.op = .close
   | _ => True
 
 structure InvA (s : State) : Prop where
@@ -85,6 +86,13 @@ structure InvA (s : State) : Prop where
 
 
 /-! ### layer B: entries own instances -/
+
+/-- the entry a lookup thread currently holds -/
+def Pc.holds : Pc → Option Ref
+  | .getWaitClose r _ | .waitCloseWait r _ | .loadBegin r | .inLoad r _ | .loadCommit r _ _ | .loadSignal r
+  | .getWaitLoad r | .pickWaitLoad r => some r
+  | _ => none
+
 
 structure EInvB (s : State) (r : Ref) : Prop where
   val_inst : ∀ i, (s.heap r).value = some i →
@@ -104,41 +112,54 @@ structure IInvB (s : State) (i : Inst) : Prop where
   closes : (s.inst i).closes = if (s.inst i).st = .closed then 1 else 0
   no_bad : (s.inst i).badClose = false
 
+/-- the entry a removing thread works on -/
+def Pc.rmRef : Pc → Option Ref
+  | .rmWaitLoad r | .rmSetClosing r | .rmClosingWait r _ | .inClose r _ => some r
+  | _ => none
+
+/-- what a thread's pc / result says about instances -/
+structure TInvB (s : State) (th : Thread) : Prop where
+  held_id : ∀ r, th.pc.holds = some r → (s.heap r).id = th.op.id
+  ret_val : ∀ i, th.pc = .done (.val i) →
+    i < s.nInst ∧ (s.inst i).st.loaded = true ∧ (s.inst i).id = th.op.id
+  ret_objs : ∀ l i, th.pc = .done (.objs l) → i ∈ l → i < s.nInst ∧ (s.inst i).st.loaded = true
+  commit_live : ∀ r i ab, th.pc = .loadCommit r (some i) ab → (s.inst i).st = .live
+  same_target : ∀ id tgt r, th.op = .removeSame id (some tgt) → th.pc.rmRef = some r →
+    (s.heap r).value = some tgt
+  load_loading : ∀ r i, th.pc = .inLoad r i → (s.inst i).st = .loading
+  remove_op : th.pc = .removeLookup → ∀ id tgt, th.op ≠ .removeSame id tgt
+
 structure InvB (s : State) : Prop where
   ent : ∀ r, r < s.nHeap → EInvB s r
   ins : ∀ i, i < s.nInst → IInvB s i
-  ret : ∀ t, t < s.nThr → ∀ i,
-    ((s.thr t).pc = .done (.val i) → i < s.nInst ∧ (s.inst i).st.loaded = true ∧ (s.inst i).id = (s.thr t).op.id) ∧
-    (∀ l, (s.thr t).pc = .done (.objs l) → i ∈ l → i < s.nInst ∧ (s.inst i).st.loaded = true)
+  thr : ∀ t, t < s.nThr → TInvB s (s.thr t)
 
 /-! ### layer C: staleness -/
 
-/-- the entry a lookup thread currently holds -/
-def Pc.holds : Pc → Option Ref
-  | .getWaitClose r _ | .waitCloseWait r _ | .loadBegin r | .inLoad r _ | .loadCommit r _ _ | .loadSignal r
-  | .getWaitLoad r | .pickWaitLoad r => some r
-  | _ => none
+structure TInvC (s : State) (th : Thread) : Prop where
+  stale_closed : ∀ i, i ∈ th.stale → i < s.nInst ∧ (s.inst i).st = .closed
+  held_fresh : ∀ r i, th.pc.holds = some r → (s.heap r).value = some i → i ∉ th.stale
+  ret_val : ∀ i, th.pc = .done (.val i) → i ∉ th.stale
+  ret_objs : ∀ l i, th.pc = .done (.objs l) → i ∈ l → i ∉ th.stale
+  started_first : th.started = true ∨ th.pc = firstPc th.op
 
 structure InvC (s : State) : Prop where
-  stale_closed : ∀ t, t < s.nThr → ∀ i, i ∈ (s.thr t).stale → (s.inst i).st = .closed
-  held_fresh : ∀ t, t < s.nThr → ∀ r i, (s.thr t).pc.holds = some r → (s.heap r).value = some i →
-    i ∉ (s.thr t).stale
-  ret_fresh : ∀ t, t < s.nThr → ∀ i,
-    ((s.thr t).pc = .done (.val i) → i ∉ (s.thr t).stale) ∧
-    (∀ l, (s.thr t).pc = .done (.objs l) → i ∈ l → i ∉ (s.thr t).stale)
+  thr : ∀ t, t < s.nThr → TInvC s (s.thr t)
 
 /-! ### layer D: the thread that runs `Close()` -/
 
-def CloseProgress (s : State) (th : Thread) : Prop :=
-  th.op = .close ∧
+/-- where a thread whose operation is `Close()` can be, and what is then left in the map: only the
+entry it is working on and the entries still on its `toClose` list -/
+def CloseRun (s : State) (th : Thread) : Prop :=
   match th.pc with
-  | .done (.errOnly none) => ∀ r, r < s.nHeap → ¬ Entry.inMapOf s r
+  | .done (.errOnly none) => s.closed = true ∧ ∀ r, r < s.nHeap → ¬ Entry.inMapOf s r
   | .rmWaitLoad r | .rmSetClosing r | .rmClosingWait r _ | .inClose r _ =>
-    ∀ r', r' < s.nHeap → Entry.inMapOf s r' → r' = r ∨ r' ∈ th.todo
+    s.closed = true ∧ ∀ r', r' < s.nHeap → Entry.inMapOf s r' → r' = r ∨ r' ∈ th.todo
+  | .closeCollect | .done _ => True
   | _ => False
 
 structure InvD (s : State) : Prop where
-  progress : s.closed = true → ∃ t, t < s.nThr ∧ CloseProgress s (s.thr t)
+  thr : ∀ t, t < s.nThr → (s.thr t).op = .close → CloseRun s (s.thr t)
   close_done : s.closeDone = true → s.closed = true ∧ ∀ r, r < s.nHeap → ¬ Entry.inMapOf s r
 
 /-- the whole invariant (evaluated clause by clause on every visited state by `Check.invFail`) -/
@@ -179,6 +200,10 @@ def RemovedNotReturned (s : State) : Prop :=
   ∀ t, t < s.nThr → ∀ i,
     ((s.thr t).pc = .done (.val i) → i ∉ (s.thr t).stale) ∧
     (∀ l, (s.thr t).pc = .done (.objs l) → i ∈ l → i ∉ (s.thr t).stale)
+
+/-- identity-checked removal: a `RemoveSame(id, v)` only ever closes `v` -/
+def RemoveSameOnlyTarget (s : State) : Prop :=
+  ∀ t, t < s.nThr → ∀ id tgt r i, (s.thr t).op = .removeSame id (some tgt) → (s.thr t).pc = .inClose r i → i = tgt
 
 def NoPanic (s : State) : Prop :=
   s.panicked = false ∧ ∀ t, t < s.nThr → (s.thr t).pc ≠ .done .panic
